@@ -42,7 +42,7 @@ def _replay(r):
 
 
 def check(pid, tier, seed):
-    return p_sync.check(pid, tier, seed, {"scenarios": SCEN, "replay": _replay})
+    return p_sync.check(pid, tier, seed, {"scenarios": SCEN, "replay": _replay, "conformance": {"thorough": [("set", "user")]}})
 
 
 def replay(pid, path):
